@@ -362,7 +362,10 @@ def run_missing(it):
 # parametric fits (iterative optimisers): a spectrum's fit must not depend on what else is in the batch
 # ---------------------------------------------------------------------------------------------
 FIT_FREQ = np.arange(0.04, 0.42, 0.015)
-FIT_NAMES = ["jon_10", "jon_5", "gauss_swell", "narrow", "bimodal", "zero", "mono", "impulse", "flat", "bimodal2"]
+FIT_NAMES = ["jon_10", "jon_5", "gauss_swell", "narrow", "bimodal", "zero", "mono", "impulse", "flat", "bimodal2", "young"]
+# peak/tail statistics on the same 26-frequency menu: the (1.35 fp, 2 fp) tail window holds 5-9 bins for the swells, none for the
+# young sea peaking at 0.355 Hz, and the spectra called mono, zero and flat have no peak at all
+TAIL_OPS = ["alpha", "gamma", "tp", "fp"]
 
 
 def fit_menu():
@@ -382,7 +385,7 @@ def fit_menu():
     imp = np.zeros(f.size)
     imp[7] = 5.0
     m = [jon(2, 10, 3.3), jon(1.5, 5, 2.0), gau(1.0, 14, 0.01), gau(2.0, 16.6, 0.002), gau(2.0, 16.6, 0.008) + jon(1.8, 4.5, 3.3),
-         np.zeros(f.size), np.linspace(0.1, 2, f.size), imp, np.full(f.size, 0.7), jon(3, 12, 5) + jon(2.5, 3.5, 1.5)]
+         np.zeros(f.size), np.linspace(0.1, 2, f.size), imp, np.full(f.size, 0.7), jon(3, 12, 5) + jon(2.5, 3.5, 1.5), jon(0.8, 1.0 / 0.355, 3.3)]
     return np.array(m)
 
 
@@ -404,6 +407,8 @@ def fit_call(da, which):
     with warnings.catch_warnings():
         warnings.simplefilter("ignore")
         try:
+            if which in TAIL_OPS:
+                return {which: np.asarray(getattr(da.spec, which)().values, dtype=np.float64)}
             ds = getattr(da.spec, which)(spectra=False)
             return {k: np.asarray(ds[k].values, dtype=np.float64) for k in ds.data_vars}
         except Exception as e:  # noqa
@@ -443,7 +448,8 @@ def run_fits(it):
                     msg = None
                     for k in one:
                         x, y = full[k].ravel()[p], one[k].ravel()[0]
-                        if not ((np.isnan(x) and np.isnan(y)) or (np.isfinite(x) and np.isfinite(y) and abs(x - y) <= 1e-7 * max(1.0, abs(y)))):
+                        tol = 2e-6 if which in TAIL_OPS else 1e-7
+                        if not ((np.isnan(x) and np.isnan(y)) or (np.isfinite(x) and np.isfinite(y) and abs(x - y) <= tol * max(1.0, abs(y)))):
                             msg = "%s of '%s' is %r in the batch, %r alone" % (k, FIT_NAMES[sp], float(x), float(y))
                             break
                 if msg:
@@ -482,7 +488,7 @@ def run(rep, tier, seed, parts=None):
                 "methods except hmax); for every position the batch result must equal the result on the extracted single spectrum (also with a non-spectral dimension stored after freq for the 1- and 2-dimension layouts), and "
                 "replacing one spectrum must leave every other position bitwise unchanged; all 900 ordered pairs of menu spectra on a "
                 "2-position layout (quick: 12 operations, thorough: all); Dataset accessor vs efth accessor for every operation; 4 layouts with missing values (an all-NaN land point stored first, one masked interior bin) for every operation except the watershed methods; fit_jonswap / fit_gaussian on every ordered pair of a 10-spectrum menu (fittable, unfittable = NaN alone, bimodal) "
-                "as 2-position batches and (a, unfittable, b) 3-position batches, 1-D and directional: every position equals the lone fit. "
+                "as 2-position batches and (a, unfittable, b) 3-position batches, 1-D and directional: every position equals the lone fit; alpha / gamma / tp / fp on the same batches with an 11th spectrum (a young sea whose tail window holds no frequency). "
                 "Non-trivial = (operation, position) in a layout with more than one position / each ordered pair." % len(ops))
     rep.assumptions = ["partition methods are not applied to layouts that already have a 'part' dimension (their output dimension would collide)",
                        "gamma / alpha / fp are float64 values computed from float32 peak frequencies; numpy evaluates float32 powers of arrays and of single elements with different code paths, so they are compared at 2e-6 instead of 1e-10",
@@ -507,6 +513,7 @@ def run(rep, tier, seed, parts=None):
             for which in ("fit_jonswap", "fit_gaussian"):
                 items.append(dict(kind="fits", a=a, dim=["time", "site"][(a + seed) % 2], directional=(a + seed) % 3 == 0, fits=[which],
                                   triples=(tier == "thorough" or a in (0, 3))))
+            items.append(dict(kind="fits", a=a, dim=["time", "site"][(a + seed) % 2], directional=(a + seed) % 3 != 0, fits=list(TAIL_OPS), triples=True))
 
     def dispatch(it):
         return {"layout": run_layout, "pairs": run_pairs, "dsacc": run_dsacc, "missing": run_missing, "fits": run_fits}[it["kind"]](it)
